@@ -280,12 +280,14 @@ theorem parseFileIdMsg_ends {Q : DecSt → Prop} {att : Bool} (P : Profile) (hwf
           | some st4 => exact hc st4 (addMsg_typed P hx hfl dm2 (some msg) st3 st4 hm hst3 ha)
 
 theorem FileTyped.congr {P : Profile} {f f' : FileSt} (h : FileTyped P f) (e1 : f'.fileId = f.fileId)
-    (e2 : f'.creator = f.creator) (e3 : f'.tscorr = f.tscorr) (e4 : f'.cidx = f.cidx) (e5 : f'.slots = f.slots) :
+    (e2 : f'.creator = f.creator) (e3 : f'.tscorr = f.tscorr) (e4 : f'.cidx = f.cidx) (e5 : f'.slots = f.slots)
+    (e0 : f'.hdr = f.hdr) :
     FileTyped P f' :=
   ⟨by rw [e1]; exact h.fid, by rw [e2]; exact h.creator, by rw [e3]; exact h.tscorr, by rw [e4, e5]; exact h.slots,
     by
       have : fileTypeOf f' = fileTypeOf f := by unfold fileTypeOf; rw [e1]
-      rw [e4, this]; exact h.ctype⟩
+      rw [e4, this]; exact h.ctype,
+    by rw [e0]; exact h.hdr⟩
 
 theorem zeroFileId_ok (P : Profile) (hwf : ProfileWF P = true) : MsgOK P (zeroFileId P) ∧ (zeroFileId P).num = mnFileId := by
   have hkn : P.known mnFileId = true := by
@@ -306,7 +308,7 @@ theorem init_typed (P : Profile) (f f' : FileSt) (hf : FileTyped P f) (h : f.ini
   split at h
   · rename_i ci hci
     cases h
-    refine ⟨hf.fid, hf.creator, hf.tscorr, ?_, ?_⟩
+    refine ⟨hf.fid, hf.creator, hf.tscorr, ?_, ?_, hf.hdr⟩
     · intro i _ j ms hj x hx
       simp only [List.getElem?_replicate] at hj
       split at hj
@@ -343,6 +345,68 @@ theorem recordsProg_ends (P : Profile) (hwf : ProfileWF P = true) (hx : xokB P =
       · cases hi
       · cases hi
 
+/-- `decodeHeader_cases` keeping what the size test established -/
+theorem decodeHeader_cases_size (Q : Outcome → Prop) (st : DecSt) (cont : DecSt → HP) (s : SpecSt)
+    (hfail : ∀ st2 c b, Q { fail st2 c with cleanEOF := b })
+    (hcont : ∀ st' s1 size sb tmp, (size = headerSizeNoCRC ∨ size = headerSizeCRC) →
+      headerCheck { st with hdr := { st.hdr with size := size } } sb tmp = .ok st' →
+      Q (runSpec (cont st') s1).1) :
+    Q (runSpec (decodeHeader st cont) s).1 := by
+  unfold decodeHeader
+  simp only [runSpec]
+  by_cases h1 : 1 ≤ s.rest.length
+  · rw [if_pos h1]
+    split
+    · simp only [runSpec]
+      exact hfail _ _ false
+    · rename_i hsz
+      simp only [runSpec]
+      split
+      · split
+        · simp only [runSpec]
+          exact hfail _ _ false
+        · rename_i st' hc
+          refine hcont st' _ _ _ _ ?_ hc
+          by_cases e : ((s.rest.take 1).headD 0).toNat = headerSizeCRC
+          · exact Or.inr e
+          · by_cases e2 : ((s.rest.take 1).headD 0).toNat = headerSizeNoCRC
+            · exact Or.inl e2
+            · exact absurd ⟨e, e2⟩ hsz
+      · exact hfail _ _ false
+  · rw [if_neg h1]
+    cases s.stop
+    · exact hfail _ _ true
+    · exact hfail _ _ false
+
+/-- a header that passed `headerCheck` is legal -/
+theorem headerCheck_legal (st st' : DecSt) (sb tmp : Bytes) (size : Nat)
+    (hsz : size = headerSizeNoCRC ∨ size = headerSizeCRC) (hst : st.hdr.size = size)
+    (h : headerCheck st sb tmp = .ok st') : HdrLegal st'.hdr := by
+  unfold headerCheck at h
+  simp only at h
+  split at h
+  · cases h
+  · rename_i hpv
+    split at h
+    · cases h
+    · rename_i htag
+      have hp : (tmp.headD 0).toNat < 256 := (tmp.headD 0).toNat_lt
+      have hp2 : (tmp.headD 0).toNat / 16 ≤ protoMajorMax := by omega
+      have ht : (tmp.drop 7).take 4 = fitTag := by
+        by_cases e : (tmp.drop 7).take 4 = fitTag
+        · exact e
+        · exact absurd e (by simpa using htag)
+      split at h
+      · cases h
+        exact ⟨by rw [← hst] at hsz; exact hsz, ht, hp, hp2⟩
+      · split at h
+        · cases h
+          exact ⟨by rw [← hst] at hsz; exact hsz, ht, hp, hp2⟩
+        · split at h
+          · cases h
+          · cases h
+            exact ⟨by rw [← hst] at hsz; exact hsz, ht, hp, hp2⟩
+
 /-- **Every File a successful `Decode` returns is well typed**: each message is of a known type and
     every struct field holds a value of its Go type; every container field holds messages of its
     element type. -/
@@ -351,13 +415,14 @@ theorem success_typed (P : Profile) (hwf : ProfileWF P = true) (hx : xokB P = tr
     ∀ F, (runSpec (decodeProg P .full g) s).1.st.file = some F → FileTyped P F ∧ F.cidx.isSome = true := by
   revert hs
   unfold decodeProg
-  apply decodeHeader_cases (fun o => o.success → ∀ F, o.st.file = some F → FileTyped P F ∧ F.cidx.isSome = true)
+  apply decodeHeader_cases_size (fun o => o.success → ∀ F, o.st.file = some F → FileTyped P F ∧ F.cidx.isSome = true)
   · intro st2 c b h; exact absurd h (by simp [fail, Outcome.success])
-  · intro st' s1 size sb tmp hc
+  · intro st' s1 size sb tmp hsz hc
+    have hleg : HdrLegal st'.hdr := headerCheck_legal _ st' sb tmp size hsz rfl hc
     have hst0 : TypedSt P false { st' with file := some { hdr := st'.hdr, fileId := zeroFileId P }, unkInit := true } := by
       intro f hf
       cases hf
-      exact ⟨⟨zeroFileId_ok P hwf, (fun _ h => by cases h), (fun _ h => by cases h), (fun _ h => by cases h), (fun _ h => by cases h)⟩,
+      exact ⟨⟨zeroFileId_ok P hwf, (fun _ h => by cases h), (fun _ h => by cases h), (fun _ h => by cases h), (fun _ h => by cases h), hleg⟩,
         fun h => by cases h⟩
     simp only [runSpec]
     have hw := fun x => EndsOK.run _ (recordsProg_ends P hwf hx hfl _ hst0) st'.hdr.dataSize 0
@@ -385,7 +450,7 @@ theorem success_typed (P : Profile) (hwf : ProfileWF P = true) (hx : xokB P = tr
             | some f0 =>
               rw [hxf] at e2
               cases e2
-              exact ⟨(hxt f0 hxf).1.congr rfl rfl rfl rfl rfl, (hxt f0 hxf).2 rfl⟩
+              exact ⟨(hxt f0 hxf).1.congr rfl rfl rfl rfl rfl rfl, (hxt f0 hxf).2 rfl⟩
           split at hF
           · exact hmap _ rfl hF
           · exact hmap _ rfl hF
